@@ -75,6 +75,8 @@ type Engine struct {
 	strLitOrder []string
 	floatLits map[string]string
 	gnn       map[*types.Var]bool
+	gsent     map[*types.Var]bool
+	sentinels map[string][2]string // sentinel error globals read so far (tag, dat constants)
 	boxedAll  map[types.Object]bool
 	defs      map[string]string
 	dynUF     map[string]*UFDecl
